@@ -4,15 +4,23 @@ from props import ModuleCheck, T, bundled
 
 ORACLE_CLAUSES_C17 = ["C17_Append", "C17_Aggregate", "C17_History", "C17_StateMirror", "C17_Authority"]
 
+# emptyprov=1: provider strings that are no account address (stored as the EMPTY address; findings/oraclerandom.md R7-3:
+# such a feed makes every later genesis export unimportable - a C12 matter, so RECORD below does not set the flag)
 ORACLE_RND = T(
-    [dict(n=10, len=30, procs=6, cfg="users=2,provs=3,funds=60,maxfeeds=3,maxtimeout=3"),
-     dict(n=10, len=30, procs=6, cfg="users=3,provs=2,funds=45,maxfeeds=2,maxtimeout=2")],
-    [dict(n=60, len=40, procs=7, cfg="users=2,provs=3,funds=60,maxfeeds=3,maxtimeout=3"),
-     dict(n=60, len=40, procs=7, cfg="users=3,provs=2,funds=45,maxfeeds=2,maxtimeout=2")])
+    [dict(n=10, len=30, procs=6, cfg="users=2,provs=3,funds=60,maxfeeds=3,maxtimeout=3,emptyprov=1"),
+     dict(n=10, len=30, procs=6, cfg="users=3,provs=2,funds=45,maxfeeds=2,maxtimeout=2,emptyprov=1")],
+    [dict(n=60, len=40, procs=7, cfg="users=2,provs=3,funds=60,maxfeeds=3,maxtimeout=3,emptyprov=1"),
+     dict(n=60, len=40, procs=7, cfg="users=3,provs=2,funds=45,maxfeeds=2,maxtimeout=2,emptyprov=1")])
 # multi-message transactions (runs of one signer's messages delivered as one real transaction)
 bundled(ORACLE_RND)
-ORACLE_GEN = T([dict(cfg="GEN_Oracle.cfg", num=12, depth=24, seeds=8)],
-               [dict(cfg="GEN_Oracle.cfg", num=60, depth=28, seeds=14)])
+# second generator mode (round 7, negative probing): GenSpecP = accepted events on the way (answers in every payload
+# class, provider strings of the wrong kind, at most three messages per block), then four events the specification
+# REJECTS, aimed at the state reached; the replay's epilogue is computed from the real chain state
+ORACLE_GEN = T([dict(cfg="GEN_Oracle.cfg", num=12, depth=24, seeds=8),
+                dict(cfg="GEN_Oracle_probe.cfg", num=6, depth=30, seeds=4)],
+               [dict(cfg="GEN_Oracle.cfg", num=60, depth=28, seeds=14),
+                dict(cfg="GEN_Oracle_probe.cfg", num=40, depth=34, seeds=10),
+                dict(cfg="GEN_Oracle_probe.cfg", num=40, depth=22, seeds=4)])
 ORACLE_MC = T([dict(cfg="MC_Oracle.cfg", timeout=1500),
                # the oracle-price module service and btc-priced bindings (diagnostic clauses X17_*)
                dict(cfg="MC_Oracle_price.cfg", timeout=1500),
@@ -30,7 +38,19 @@ ORACLE_GEN_CFG = "users=2,provs=2,funds=60,maxtimeout=2,price=10"
 _SCN_CFG = "users=2,provs=2,funds=60,maxtimeout=2,price=10"
 ORACLE_SCN = [dict(file="scenarios/oracle_cover.ndjson", cfg=_SCN_CFG),
               dict(file="scenarios/oracle_cover2.ndjson", cfg=_SCN_CFG),
-              dict(file="scenarios/oracle_F15.ndjson", cfg=_SCN_CFG)]
+              dict(file="scenarios/oracle_F15.ndjson", cfg=_SCN_CFG),
+              # negative probing / unusual inputs (round 7; written by scenarios/oracle_mk_probe.py): every antecedent of
+              # PROBE_REQUIRED on every run
+              dict(file="scenarios/oracle_probe.ndjson", cfg="users=2,provs=2,funds=300,maxtimeout=2,price=10")]
+# every feed command x feed state x role, every payload class, inputs of the wrong kind
+PROBE_REQUIRED = (["m_%s_%s_%s" % (c, st, r) for c in ("start", "pause", "edit")
+                   for st in ("paused", "autop", "idle", "open0", "openN", "full") for r in ("creator", "prov", "other")]
+                  + ["pay_" + p for p in ("exp zeros str dupfirst dupbody extra ridlower negzero missing null false obj arr "
+                                          "strbad nobody true emptyout errout badresult nohdr ridshort err400").split()]
+                  + ["pay_zero_counts", "odd_prov_ok", "odd_prov_rej", "bad_name_rej", "case_twin_ok", "unknown_name_cmd",
+                     "cap_denom_rej", "respond_stranger", "respond_expiry_block", "respond_late", "respond_twice",
+                     "complete_after_edit", "nested_path", "index_path", "create_invalid", "create_by_prov",
+                     "svc_name_rej", "agg_case_rej"])
 
 # C11 (finding F7): a short live run whose exchange-rate outcomes straddle the five-minute limit the oracle's
 # module service measures against the host clock; recorded under VERIF_RECORD_DIR and replayed later on replicas.
@@ -47,7 +67,7 @@ PROPS = {
                                  "start_ok", "pause_ok", "auto_pause", "unauthorized",
                                  # beyond C17 (diagnostic clauses X17_*)
                                  "price_200", "price_400", "price_401", "price_402", "bindx_ok", "bindx_norate",
-                                 "edit_context", "edit_invalid", "restart_after_autopause"],
+                                 "edit_context", "edit_invalid", "restart_after_autopause"] + PROBE_REQUIRED,
                        gen_cfg=ORACLE_GEN_CFG,
                        assumptions=["TLC 1.8, SANY, CommunityModules Json", "Go toolchain, strconv float formatting",
                                     "harness projection functions (keeper getters + raw prefix scans of the oracle store)",
@@ -71,5 +91,11 @@ TEXT = {
         note="Trusted: TLC/SANY/CommunityModules Json, Go toolchain, the harness projection. Values beyond +-3.4 "
              "(10^-8 units above 2^31/6) belong to the big-number tier and are not driven. F15 (maximum of all-negative "
              "answers stored as 0) is fixed in /repo (bb6c4a3); its scenario stays as a regression. Diagnostic clauses "
-             "X17_* (oracle-price module service, btc-priced bindings, edit effects, restarts) are reported, never a verdict."),
+             "X17_* (oracle-price module service, btc-priced bindings, edit effects, restarts) are reported, never a verdict. "
+             "Round 7 (negative probing): a second generator mode ends every behaviour with four rejected events; every feed "
+             "command x feed state x role and 22 ways of writing an answer down (exponent, string, duplicate members, missing / "
+             "null / boolean / object values, refused results) are required antecedents exercised by scenarios/oracle_probe.ndjson; "
+             "answers without a number are judged as today's code reads them (0; true = 1; Oracle.tla AnsX). Answers that are "
+             "not finite (1e999, \"Inf\", \"NaN\") are sent only under driver cfg inf=1, off in every registered check "
+             "(findings/oraclerandom.md R7-2); provider strings that become the empty address only under emptyprov=1 (R7-3)."),
 }
